@@ -163,7 +163,10 @@ func (e *Engine) ranges(height int) [][2]int {
 		r = append(r, [2]int{height - 3, 10}, [2]int{height / 2, 3}, [2]int{height, 1})
 	}
 	if height > 1005 {
-		r = append(r, [2]int{995, 12}, [2]int{999, 2})
+		r = append(r, [2]int{995, 12}, [2]int{999, 2}, [2]int{900, 200})
+	}
+	if height > 2005 {
+		r = append(r, [2]int{1990, 20}, [2]int{950, 1100})
 	}
 	return r
 }
